@@ -53,12 +53,14 @@ const (
 	e2kExit         = "kernel-exit"
 	e2kStart        = "instance-start"
 	e2kStop         = "instance-stop"
-	e2kQuiesce      = "quiesce"
-	e2kHoldStart    = "hold-start"
-	e2kHoldEnd      = "hold-end"
-	e2kProxy        = "proxied-request"
-	e2kFreeze       = "store-freeze"
-	e2kDeaf         = "deaf-after-catchup"
+	// the step the state machine itself reports in its shutdown log line (main loop, live events)
+	e2kQuitStep  = "kernel-quit-step"
+	e2kQuiesce   = "quiesce"
+	e2kHoldStart = "hold-start"
+	e2kHoldEnd   = "hold-end"
+	e2kProxy     = "proxied-request"
+	e2kFreeze    = "store-freeze"
+	e2kDeaf      = "deaf-after-catchup"
 )
 
 type e2Ev struct {
